@@ -349,6 +349,11 @@ class SpecMixin:
             if getattr(self, 'interpret_prod', False) or z3.is_int_value(z3.simplify(a)) or z3.is_int_value(z3.simplify(b)):
                 return a * b
             return PROD(a, b)
+        if name == 'undef':      # undef(p): optional parameter p was not passed
+            return env.binds[args[0][1] + '$undef']
+        if name == 'sameobj':
+            x, y = self.sev(env, args[0]), self.sev(env, args[1])
+            return getattr(x, 'ident', None) == getattr(y, 'ident', None) if hasattr(x, 'ident') else z3.BoolVal(x is y)
         if name == 'unboxint':
             from .gocalls import unbox_int
             return unbox_int(self.refof(self.sev(env, args[0])))
